@@ -1,12 +1,16 @@
 import Proofs.BuildLoop
+import Proofs.BuildProgress
 /-!
 # C03 — builds terminate with every reachable specifier settled under any faults
 
 Model: `DG/Build.lean`.  The world is arbitrary: `World.resp` may answer anything for any
 specifier (errors, missing, redirect chains and loops, external markers), `Content` may be
 undecodable or unparsable.  What is proved holds for *every* world and option set.
-Termination itself is not proved (the model takes fuel); the correspondence run bounds the
-implementation's loader calls and wall time and reports a build that does not finish.
+Termination: what is proved is that the loop cannot spin — an iteration that takes a request off
+the queue calls the loader, and at most two iterations in a row take none (`no_spinning`), so a
+build that does not finish keeps calling the loader.  That the number of loader calls is bounded
+is not proved (the model takes fuel); the correspondence run bounds the implementation's loader
+calls and wall time and reports a build that does not finish.
 -/
 namespace DG.C03
 open DG DG.Build Tables
@@ -74,6 +78,25 @@ theorem bad_content_becomes_error_entry (w : World) (o : Opts) (r : Req) (st : S
 theorem error_settles_request (w : World) (o : Opts) (r : Req) (st : St) (e : BErr)
     (h : tryLoad w o r = .err e) (hp : PendInvEx (some r.spec) st) :
     PendInv (stepPending w o r st) := stepPending_inv w o r st hp
+
+/-- **taking a request off the queue is a loader call**, and the call log never shrinks -/
+theorem request_is_a_loader_call (w : World) (o : Opts) (st : St) :
+    (iter w o st).log.length ≥ st.log.length + (if st.pending.isEmpty then 0 else 1) :=
+  log_iter w o st
+
+/-- **the loop cannot spin** (finding F13 was a loop that did): from any state the invariant holds
+in with nothing queued, after at most two iterations a request is queued — whose processing is a
+loader call — or the build is finished -/
+theorem no_spinning (w : World) (o : Opts) (st : St) (hinv : PendInv st) (hd : DynInv st)
+    (hp : st.pending = []) :
+    (iter w o st).pending ≠ [] ∨ quiescent (iter w o st) = true ∨
+    (iter w o (iter w o st)).pending ≠ [] ∨ quiescent (iter w o (iter w o st)) = true :=
+  idle_at_most_twice w o st hinv hd hp
+
+/-- both invariants hold in every state of the loop -/
+theorem loop_invariants (w : World) (o : Opts) (st : St) (hinv : PendInv st) (hd : DynInv st) :
+    PendInv (iter w o st) ∧ DynInv (iter w o st) :=
+  ⟨pendInv_iter w o st hinv, dynInv_iter w o st hd⟩
 
 /-- non-vacuity: a world with a self-redirect, a redirect loop and a missing module finishes with
 error entries only -/
